@@ -855,6 +855,12 @@ class Interp:
                 return Pending("pull", fn.src)
             if fn.name == "aclose":
                 return Pending("aclose", fn.src)
+            if fn.name == "close":
+                # reference side of a job with `aclose_faults`: closing the source fails exactly when the impl's aclose does
+                f = self.aclose_outcome(fn.src)
+                if f is not None:
+                    raise PyRaise(f)
+                return None
             if fn.name == "__aiter__":
                 return fn.src
             if fn.name in ("asend", "athrow"):
@@ -1043,11 +1049,27 @@ class Interp:
     def ctx_repoll(self, src):
         self.ctx.repolls = getattr(self.ctx, "repolls", 0) + 1
 
+    def aclose_outcome(self, src):
+        """jobs with `aclose_faults`: the source's own aclose may fail or be cancelled (decided once per source, by
+        whichever side closes it first; both sides see the same outcome)"""
+        if not self.opts.get("aclose_faults"):
+            return None
+        if not hasattr(src, "aclose_fault"):
+            c = self.ctx.choose(3, f"aclose of {src.name}")
+            src.aclose_fault = None if c == 0 else ExcVal("UserError" if c == 1 else "Cancelled", ident=("aclose", src.name), origin="env")
+        return src.aclose_fault
+
     def aclose_source(self, src, site=None):
         if not src.has_aclose:
             raise PyRaise(ExcVal("AttributeError", ident="aclose"))
         yield Ev("AClose", src, site=site)
         src.closes += 1
+        fault = self.aclose_outcome(src)
+        if fault is not None:
+            # an async generator is finished by a failing close; a class-based iterator simply stays as it was
+            if src.kind == "gen":
+                src.state = "closed"
+            raise PyRaise(fault)
         if src.state in ("exhausted", "raised"):
             src.ended = True
         src.state = "closed" if src.state != "exhausted" else "exhausted"
@@ -1182,6 +1204,8 @@ class Interp:
             if name == "close" and self.side == "ref":
                 if not o.has_aclose:
                     raise PyRaise(ExcVal("AttributeError", ident=("attr", name)))
+                if self.opts.get("aclose_faults"):
+                    return SrcMethod(o, "close")
                 return Builtin("noop")
             if name == "aclose":
                 if not o.has_aclose:
